@@ -187,6 +187,16 @@ def purity(ck):
                 extra.append(rng.choice(["READ " + r for r in lvl.READS] + ["SNAP"]))
         with_reads.append(("a%d" % i, g.price, extra))
         without.append(("b%d" % i, g.price, strip_reads(extra)))
+    # compensating amendments (totals and counters return to where they were) between two reads, observed through a rebuild
+    # from the level's own package / snapshot: a read that left a cache behind changes what the rebuild yields
+    for i in range(n // 4):
+        a, b, d = rng.randint(5, 40), rng.randint(1, 30), rng.randint(1, 4)
+        base = ["ADD " + gen.order(rng.choice("SIR"), oid="u1", price=100, side="S", ts=10, tif="GTC", vis=a, hid=0, thr=0, amt=None),
+                "ADD " + gen.order("S", oid="l2", price=100, side="B", ts=11, tif="GTC", vis=b)]
+        rd = "READ " + rng.choice(["pkg", "snap", "json"])
+        tail = ["UPD UQ:u1:%d" % (a - d), "UPD UQ:l2:%d" % (b + d), "REBUILD " + rng.choice(["pkg", "pjson", "snap", "ref"]), "MATCH 2 u7000"]
+        with_reads.append(("a%d" % (n + i), 100, base + [rd] + tail[:2] + [rd] + tail[2:]))
+        without.append(("b%d" % (n + i), 100, base + tail))
     # blind mode: the harness itself performs no read-only call between the operations
     ra = LevelRun(with_reads, "CB").recs
     rb = LevelRun(without, "CB").recs
